@@ -1,7 +1,7 @@
 (* C19 -- the statements of Props/Properties_C19.v with their (short) derivations from the lemmas of PRProofs.v, Mix.v,
    Checker.v; Props/ only contains `exact`. *)
 From Coq Require Import Reals QArith Qreals List String Lra.
-From IPV Require Import Base.RExpr Base.IntervalEval C19.BExpr C19.Spec C19.PRProofs C19.Cardano C19.Mix C19.Checker C19.Examples Gen.Gen_C19_gases.
+From IPV Require Import Base.RExpr Base.IntervalEval C19.BExpr C19.Spec C19.PRProofs C19.Cardano C19.Mix C19.Kij C19.Checker C19.Examples Gen.Gen_C19_gases.
 Import ListNotations.
 Local Open Scope R_scope.
 
@@ -242,3 +242,14 @@ Lemma T_phase_redefinition_resets_cached_gas_state :
   (exists q, In ("pr_phi"%string, q) phase_init_consts /\ (q == 1)%Q) /\ In ("pr_in"%string, "false"%string) phase_init_others /\
   (exists c, In (c, "phase_init(phase_ptr)"%string) phase_store_reinit_calls) /\ (1 <= phase_alloc_init_calls)%nat.
 Proof. exact (phase_reinit_sound _ _ _ _ phase_reinit_generated). Qed.
+
+Lemma T_binary_parameter_table_symmetric :
+  (forall ds a b, read_all bip_reader_stores ds (a, b) = read_all bip_reader_stores ds (b, a)) /\
+  (forall ds g1 g2 v, let t := read_all bip_reader_stores (ds ++ [(g1, g2, v)]) in t (g1, g2) = Some v /\ t (g2, g1) = Some v) /\
+  bip_reader_other_mutations = [].
+Proof.
+  split; [| split].
+  - intros ds a b. apply (table_symmetric _ _ reader_generated_ok).
+  - intros ds g1 g2 v. apply (last_definition_wins _ _ reader_generated_ok).
+  - reflexivity.
+Qed.
